@@ -114,6 +114,7 @@ impl Prop for C10 {
                     return out;
                 }
                 let n = gen::clusters(&f, g).len();
+                let _ = operations(&f, &t, !g); // the same texts in the other unit first
                 let ops = match operations(&f, &t, g) {
                     Ok(o) => o,
                     Err(e) => {
@@ -166,6 +167,7 @@ impl Prop for C10 {
                     // delta = -1 on the empty string
                     return out;
                 }
+                let _ = operations(s, s, !g);
                 let r = match repair(s, &ops, g) {
                     Ok(r) => r,
                     Err(e) => {
